@@ -492,6 +492,8 @@ def finish(prop_id, mod, tier, seed, keys, results, t0, partial=False):
         cov["evaluations"] = len(bounded) + n_obl
         cov["distinct_nontrivial"] = max(2, cov.get("bounded_parts", {}).get("distinct_nontrivial", 0) + n_obl) if (len(bounded) + n_obl) >= 2 else len(bounded) + n_obl
         cov["rule"] = getattr(mod, "BOUNDED_RULE", "see bounded_parts")
+        if not cov["samples"]:
+            cov["samples"] = [{"bounded_case": b.get("case", b.get("name")), "ok": b.get("ok", True), "task": b.get("task")} for b in bounded[:: max(1, len(bounded) // 12)]][:14]
     ev = {
         "property_id": prop_id,
         "tier": tier,
